@@ -663,9 +663,9 @@ def rUpdate (d : Backend) : Update → Pieces
     rSets d (if d == .mysql && hasFrom then (match table with | some (.named ⟨[t], none⟩) => some t | _ => none) else none) true sets ++
     (if d == .mysql || !hasFrom then [] else [S " FROM "] ++ rTRefs d true from_) ++
     (if d == .mysql && hasFrom then [] else rHolder d "WHERE" where_) ++
+    rReturning d returning ++
     (if OrderList.isNil orders then [] else [S " ORDER BY "] ++ rOrders d true orders) ++
-    (match limit with | some v => [S " LIMIT ", .p v] | none => []) ++
-    rReturning d returning
+    (match limit with | some v => [S " LIMIT ", .p v] | none => [])
 /-- SET list; `qual` = the table name MySQL's `prepare_update_column` prefixes -/
 def rSets (d : Backend) (qual : Option String) : Bool → SetList → Pieces
   | _, .nil => []
@@ -679,9 +679,9 @@ def rDelete (d : Backend) : Delete → Pieces
     [S "DELETE "] ++
     (match table with | some t => [S "FROM "] ++ rTRef d t | none => []) ++
     rHolder d "WHERE" where_ ++
+    rReturning d returning ++
     (if OrderList.isNil orders then [] else [S " ORDER BY "] ++ rOrders d true orders) ++
-    (match limit with | some v => [S " LIMIT ", .p v] | none => []) ++
-    rReturning d returning
+    (match limit with | some v => [S " LIMIT ", .p v] | none => [])
 end
 
 end SeaQ.Render
